@@ -199,6 +199,11 @@ func (c *Ctx) eval(e ast.Expr) Value {
 		if tup, ok := T.(*types.Tuple); ok {
 			r := x.freshValue("typeassert", tup.At(0).Type())
 			okv := x.freshValue("typeassert.ok", tup.At(1).Type())
+			if r.Kind == KScalar && r.S.Sort == SRef && v.Kind == KScalar && v.S.Sort == SRef && okv.Kind == KScalar {
+				// v.(T) with ok: the same reference, and a nil interface value has no dynamic type
+				r.S = Ite(okv.S, v.S, Nil)
+				c.st.assume(Implies(okv.S, Neq(v.S, Nil)))
+			}
 			return Value{Kind: KTuple, T: T, Elems: []Value{r, okv}}
 		}
 		x.warn("type assertion %s treated as total", exprText(e.X))
@@ -207,7 +212,18 @@ func (c *Ctx) eval(e ast.Expr) Value {
 		}
 		return x.freshValue("typeassert", T)
 	case *ast.FuncLit:
-		return Scalar(Fresh("funclit", SRef), c.typeOf(e))
+		// a function literal is a non-nil value named by its position; its body is remembered for calls
+		// through function values (funcvalue.go)
+		t := Var("funclit!"+x.pos(e.Pos()), SRef)
+		x.addFact(t, Neq(t, Nil))
+		if x.funcLits == nil {
+			x.funcLits = map[*Term]*ast.FuncLit{}
+		}
+		if _, seen := x.funcLits[t]; !seen {
+			x.funcLits[t] = e
+			x.funcLitOrder = append(x.funcLitOrder, t)
+		}
+		return Scalar(t, c.typeOf(e))
 	case *ast.IndexListExpr:
 		return c.eval(e.X)
 	}
@@ -239,6 +255,9 @@ func (c *Ctx) evalIdent(id *ast.Ident) Value {
 				return x.load(c.st, key, o.Type())
 			}
 			if o.Pkg() != nil && o.Parent() == o.Pkg().Scope() {
+				if v, ok := c.pkgVarInit(o); ok {
+					return v
+				}
 				// package-level variable: opaque constant
 				x.warn("package variable %s treated as an unknown constant", o.Name())
 				return x.symbolic("pkgvar."+o.Pkg().Name()+"."+o.Name(), o.Type(), func(n string, s Sort) *Term { return Var(n, s) })
@@ -256,6 +275,24 @@ func (c *Ctx) evalIdent(id *ast.Ident) Value {
 		panic(engineErr("%s: identifier %s (%T) not supported", x.pos(id.Pos()), id.Name, obj))
 	}
 	// spec mode
+	if id.Name == "retvar" && c.fr != nil && c.fr.fi != nil {
+		// retvar: the local variable named by the function's final `return x` (robust against renaming it)
+		body := c.fr.fi.Decl.Body
+		if n := len(body.List); n > 0 {
+			if rs, ok := body.List[n-1].(*ast.ReturnStmt); ok && len(rs.Results) == 1 {
+				if rid, ok := unparen(rs.Results[0]).(*ast.Ident); ok {
+					if o, ok := c.fr.info.ObjectOf(rid).(*types.Var); ok {
+						if key, ok := c.fr.keyOf(o); ok {
+							if v, ok := c.st.store[key]; ok {
+								return v
+							}
+						}
+					}
+				}
+			}
+		}
+		panic(engineErr("spec: retvar: the function does not end in `return <local variable>` (anchor lost)"))
+	}
 	if c.fr != nil {
 		if key, ok := c.fr.scope[id.Name]; ok {
 			if v, ok := c.st.store[key]; ok {
@@ -916,12 +953,25 @@ func (c *Ctx) evalCompositeLit(e *ast.CompositeLit) Value {
 		es := x.elemSort(T)
 		arr := ConstArray(ArraySort(SInt, es), zeroOfSort(es))
 		n := int64(0)
+		next := int64(0)
 		for _, el := range e.Elts {
-			if _, ok := el.(*ast.KeyValueExpr); ok {
-				panic(engineErr("keyed slice literal not supported"))
+			if kv, ok := el.(*ast.KeyValueExpr); ok {
+				tv, ok := c.info.Types[kv.Key]
+				if !ok || tv.Value == nil {
+					panic(engineErr("%s: slice literal with a non-constant key", x.pos(kv.Pos())))
+				}
+				k, exact := constant.Int64Val(constant.ToInt(tv.Value))
+				if !exact {
+					panic(engineErr("%s: slice literal key out of range", x.pos(kv.Pos())))
+				}
+				next = k
+				el = kv.Value
 			}
-			arr = Store(arr, IntLit(n), c.eval(el).S)
-			n++
+			arr = Store(arr, IntLit(next), c.boxElem(c.coerce(c.eval(el), elemType(T)), elemType(T)).S)
+			next++
+			if next > n {
+				n = next
+			}
 		}
 		if a, ok := u.(*types.Array); ok {
 			n = a.Len()
